@@ -17,6 +17,7 @@ import (
 func init() {
 	extraCmds["llvc"] = llvcCmd
 	extraCmds["llvc-selftest"] = func(args []string) int { return llvc.SelfTestMain(args) }
+	extraCmds["llvc-layouts"] = func(args []string) int { return llvc.LayoutsMain(args) }
 }
 
 // bngvc llvc [flags] <file.c> [func ...]
@@ -33,6 +34,7 @@ func llvcCmd(args []string) int {
 	jsonOut := fs.String("json", "", "write a machine-readable report to this file")
 	kinds := fs.String("kinds", "", "only solve obligations of these kinds (comma separated)")
 	confirm := fs.Bool("confirm", false, "confirm every unsat answer with a second solver")
+	allSpecs := fs.Bool("all-specs", false, "generate the functional-spec obligations of every property (default: only those of -property)")
 	fs.Usage = func() {
 		fmt.Fprintln(os.Stderr, "usage: bngvc llvc [flags] <file.c> [func ...]")
 		fs.PrintDefaults()
@@ -79,7 +81,7 @@ func llvcCmd(args []string) int {
 			fmt.Fprintln(os.Stderr, "llvc:", err)
 			return 2
 		}
-		rep, err := llvc.Check(mod, fn, llvc.Options{Property: *prop, Spec: sp}, solver, *workers, llvc.CheckOptions{Replay: *replay, Kinds: *kinds})
+		rep, err := llvc.Check(mod, fn, llvc.Options{Property: *prop, Spec: sp, AllFunctional: *allSpecs}, solver, *workers, llvc.CheckOptions{Replay: *replay, Kinds: *kinds})
 		if err != nil {
 			fmt.Fprintln(os.Stderr, "llvc:", err)
 			return 2
